@@ -36,6 +36,10 @@ func PipeTransport(w *World) *http.Transport {
 // response head and the body.
 const slowBodyHeader = "X-Sim-Slow-Body"
 
+// cutBodyHeader (answer header, never sent on): the connection is dropped after
+// half of the body.
+const cutBodyHeader = "X-Sim-Cut-Body"
+
 func servePipe(ht *HookTransport, conn net.Conn) {
 	defer conn.Close()
 	req, err := http.ReadRequest(bufio.NewReader(conn))
@@ -63,9 +67,15 @@ func servePipe(ht *HookTransport, conn net.Conn) {
 		slow, _ = strconv.Atoi(v)
 		resp.Header.Del(slowBodyHeader)
 	}
+	cut := resp.Header.Get(cutBodyHeader) != ""
+	resp.Header.Del(cutBodyHeader)
 	var buf bytes.Buffer
 	resp.Write(&buf)
 	raw := buf.Bytes()
+	if i := bytes.Index(raw, []byte("\r\n\r\n")); cut && i >= 0 && len(raw) > i+8 {
+		conn.Write(raw[:i+4+(len(raw)-i-4)/2])
+		return // the deferred Close drops the connection in the middle of the body
+	}
 	if i := bytes.Index(raw, []byte("\r\n\r\n")); slow > 0 && i >= 0 {
 		if _, err := conn.Write(raw[:i+4]); err != nil {
 			return
